@@ -106,7 +106,7 @@ func check(ref *dns.Msg, c qcase, res dnsfix.Result, obs *observation) (fs []fin
 		add("multi-write", "%d messages written for one query", len(res.Msgs))
 	}
 	if len(res.Msgs) == 0 {
-		if ver.edns && ver.v != 0 {
+		if ver.edns && ver.v != 0 && len(ref.Question) > 0 {
 			add("badvers/no-reply", "EDNS version %d query got no reply (rcode returned %d, err %v)", ver.v, res.Rcode, res.Err)
 		}
 		return
@@ -171,13 +171,18 @@ func check(ref *dns.Msg, c qcase, res dnsfix.Result, obs *observation) (fs []fin
 		}
 	}
 	// EDNS version
-	if ver.edns && ver.v != 0 && back.Rcode != dns.RcodeBadVers {
+	// (a message without a question is answered by the mux before any EDNS processing; which of
+	// the two errors takes precedence is not something the statement decides, so it is not judged)
+	if ver.edns && ver.v != 0 && len(ref.Question) > 0 && back.Rcode != dns.RcodeBadVers {
 		add("badvers/rcode="+rcodeName(back.Rcode), "EDNS version %d query answered with %s, not BADVERS", ver.v, rcodeName(back.Rcode))
 	}
 	return
 }
 
 func rcodeName(rc int) string {
+	if rc == dns.RcodeBadVers { // 16 is BADVERS in the OPT sense (miekg's table says BADSIG, the TSIG meaning)
+		return "BADVERS"
+	}
 	if s, ok := dns.RcodeToString[rc]; ok {
 		return s
 	}
@@ -196,7 +201,24 @@ func canonOutcome(res dnsfix.Result, back *dns.Msg) string {
 	if back == nil {
 		return "<unpackable reply>"
 	}
-	return fmt.Sprintf("n=%d id=%d op=%d rd=%v ", len(res.Msgs), back.Id, back.Opcode, back.RecursionDesired) + dnsfix.Canon(back)
+	head := fmt.Sprintf("n=%d id=%d op=%d rd=%v ", len(res.Msgs), back.Id, back.Opcode, back.RecursionDesired)
+	if !back.Truncated {
+		return head + dnsfix.Canon(back)
+	}
+	// truncated: WHICH of the (shuffled) records survived is a matter of chance; how many is not
+	c := back.Copy()
+	extra := 0
+	var opt []dns.RR
+	for _, rr := range c.Extra {
+		if rr.Header().Rrtype == dns.TypeOPT {
+			opt = append(opt, rr)
+		} else {
+			extra++
+		}
+	}
+	counts := fmt.Sprintf("TC an=%d ns=%d ar=%d ", len(c.Answer), len(c.Ns), extra)
+	c.Answer, c.Ns, c.Extra = nil, nil, opt
+	return head + counts + dnsfix.Canon(c)
 }
 
 // eval runs one case (and its twin with an added unknown option) against the real
